@@ -143,7 +143,8 @@ func main() {
 	cfgs := configs(ev.Thorough())
 	binpw := "p:\nw\x00\xff\xfe:z"
 	long := strings.Repeat("0123456789", 7)
-	pws := []string{"", "x", long, binpw, "correct horse"}
+	// (the last ones end or start with bytes an implementation might be tempted to strip)
+	pws := []string{"", "x", long, binpw, "correct horse", "line\n", "crlf\r\n", "nul\x00", " lead and trail ", "\n", "\ttab"}
 	writes := 6
 	if ev.Thorough() {
 		writes = 60
